@@ -226,6 +226,12 @@ pub struct GenMsg {
     pub t_ms: u64, // reception time relative to BASE_US in ms; timestamp = same offset (constant delay 0)
     pub mcnt: u8,
     pub text: String,
+    pub ts_dms: u64, // timestamp in 0.1 ms; 0 = the reception offset (t_ms * 10); else a message delivered late (timestamp earlier)
+}
+impl GenMsg {
+    pub fn ts(&self) -> u64 {
+        if self.ts_dms > 0 { self.ts_dms } else { self.t_ms * 10 }
+    }
 }
 
 pub fn verbose_string_payload(text: &str) -> Vec<u8> {
@@ -242,7 +248,7 @@ pub fn to_dlt(i: usize, g: &GenMsg) -> DltMessage {
         index: i as u32,
         reception_time_us: BASE_US + g.t_ms * 1000,
         ecu: char4(&g.ecu),
-        timestamp_dms: (g.t_ms * 10) as u32,
+        timestamp_dms: g.ts() as u32,
         standard_header: DltStandardHeader { htyp: 0x21 | 0x10, mcnt: g.mcnt, len: 0 },
         extended_header: Some(DltExtendedHeader { verb_mstp_mtin: 0x41, noar: 1, apid: char4(&g.apid), ctid: char4(&g.ctid) }),
         payload: verbose_string_payload(&g.text),
@@ -271,6 +277,7 @@ pub fn gen_log_dt(rng: &mut Rng, n: usize, ecus: &[&str], apids: &[&str], ctids:
                 t_ms: t,
                 mcnt: (i % 256) as u8,
                 text: format!("msg {} of the log v{}", i, rng.below(1000)),
+                ts_dms: 0,
             }
         })
         .collect()
